@@ -32,21 +32,17 @@ def r1(run):
     appends = q.live_calls(b, C.APPEND)
     run.exact("Store::append sites in process_frame", len(appends), 1, b.sp)
     stamps = {}
-    for c in b.calls():
-        if c.bb in b.live_blocks() and c.fn.startswith("serde_json::map::Map") and c.fn.endswith("::insert"):
-            keys = q.const_strs(c.arg(1))
-            if keys:
-                stamps.setdefault(keys[0], []).append(c)
+    for (k, v, recv, c) in F.map_writes(b):
+        stamps.setdefault(k, []).append((v, recv, c))
     for a in appends:
         frame_local = q.root_local(b, a.args[1])
         for key, src_field, who in (("handler_id", "id", "self"), ("frame_id", "id", "frame")):
             cs = stamps.get(key, [])
             good = []
-            for c in cs:
-                v = F.json_src(c.arg(2))
+            for (val, recv, c) in cs:
                 # value = Value::String(<who>.id.to_string())
-                vs = [y for y in walk(c.arg(2)) if y[0] == "field" and y[2] == src_field and strip(y[1])[0] == "field" and strip(y[1])[1][0] == "env" and strip(y[1])[2] == who]
-                recv_is_frame_meta = any(y[0] == "field" and y[2] == "meta" for y in walk(c.arg(0)))
+                vs = [y for y in walk(val) if y[0] == "field" and y[2] == src_field and strip(y[1])[0] == "field" and strip(y[1])[1][0] == "env" and strip(y[1])[2] == who]
+                recv_is_frame_meta = any(y[0] == "field" and y[2] == "meta" for y in walk(recv))
                 if vs and recv_is_frame_meta:
                     good.append(c)
             run.ob(PF + "|stamp|%s" % key, bool(good) and q.dominated(b, a.bb, via_blocks=[c.bb for c in good]), a.sp,
@@ -225,6 +221,13 @@ def r4(run):
         second = c.arg(1)
         if first[0] == "call" and first[1].fn == "alloc::vec::Vec::<T, A>::drain" and any(y[0] == "call" and y[1].fn.endswith("::build") for y in walk(second)):
             okc = True
+    # or collected by hand: `for f in output.drain(..) { v.push(f) }  if let Some(r) = additional_frame { v.push(r) }`
+    pushes = [c for c in b.calls() if c.bb in b.live_blocks() and c.fn == "alloc::vec::Vec::<T, A>::push"]
+    p_buf = [c for c in pushes if any(y[0] == "call" and y[1].fn == "alloc::vec::Vec::<T, A>::drain" for y in walk(c.arg(1)))]
+    p_ret = [c for c in pushes if c not in p_buf and any(y[0] == "call" and y[1].fn.endswith("::build") for y in walk(c.arg(1)))]
+    if not okc and p_buf and p_ret:
+        same = all(q.root_local(b, x.args[0]) == q.root_local(b, p_buf[0].args[0]) for x in p_buf + p_ret)
+        okc = same and all(q.reaches(b, x.bb, y.bb) and not q.reaches(b, y.bb, x.bb) for x in p_buf for y in p_ret)
     run.ob(PF + "|return-frame|after-buffered", okc, b.sp, "the return frame is chained AFTER the drained buffered frames", reason="output-order")
 
 
